@@ -5,7 +5,8 @@ families (coq/SemiNaive), tied to /repo per program by a translator (translate/f
 rule modules: the flat-rule comment above every rule function, and the `env.<rel>_{new,old}_...` tables that
 every premise position of the function binds and consumes. comment <-> code is checked in python, uniformity of
 a family (same atoms, variables, conclusions; every sub-rule called exactly once) is checked in python, exactness
-of every family is decided by coqc (`check_family` / `check_family_sym` = true).
+of every family is decided by coqc (`check_family` / `check_family_sym` = true). The module-mode file must embed the same
+rule-module texts verbatim, so the translation of the component sources covers both build modes.
 """
 import json
 import os
@@ -32,11 +33,27 @@ def translate_program(name, text, origin, scratch):
     """Compile in component mode and translate. -> dict(name, rc, families, problems, ...)."""
     r = corpus.build("component", name, text, os.path.join(scratch, "p-" + name), threads=1)
     res = {"name": name, "origin": origin, "rc": r["rc"], "stderr": r["stderr"][:400], "families": [], "comment_code": [],
-           "uniform": [], "calls": [], "parse_error": None, "subrules": 0, "text": text}
+           "uniform": [], "calls": [], "module_embed": [], "parse_error": None, "subrules": 0, "text": text}
     if r["rc"] != 0:
         shutil.rmtree(r["root"], ignore_errors=True)
         return res
     cdir = os.path.join(r["root"], "comp", name + ".eql")
+    # module mode embeds the rule modules as `mod <group> {..}`: the same text, so the translation covers both modes
+    m = corpus.build("module", name, text, os.path.join(scratch, "m-" + name), threads=1)
+    shutil.rmtree(m["root"], ignore_errors=True)
+    mod_text = m["files"].get("out/%s.eql.rs" % name, b"").decode("utf-8", "replace")
+    comp_srcs = {k: v.decode("utf-8", "replace") for k, v in r["files"].items() if k.startswith("comp/") and k.endswith(".rs")}
+    res["module_embed"] = []
+    if m["rc"] != 0:
+        res["module_embed"].append("module-mode build fails: %s" % m["stderr"][:150])
+    else:
+        missing = sorted(k for k, v in comp_srcs.items() if v.strip() not in mod_text)
+        if missing:
+            res["module_embed"].append("not embedded verbatim in the module-mode file: %s" % missing[:4])
+        n_mod = len([l for l in mod_text.split("\n") if l.startswith("// rule ")])
+        n_comp = sum(len([l for l in v.split("\n") if l.startswith("// rule ")]) for v in comp_srcs.values())
+        if n_mod != n_comp:
+            res["module_embed"].append("%d rule functions in the module-mode file, %d in the components" % (n_mod, n_comp))
     try:
         for fn in sorted(os.listdir(cdir)) if os.path.isdir(cdir) else []:
             if not fn.endswith(".rs"):
@@ -66,18 +83,15 @@ def translate_program(name, text, origin, scratch):
                                                        fam["atoms"][0][0] != fam["atoms"][1][0]):
                     res["uniform"].append((fam["name"], ["the functionality rule must be one sub-rule over two atoms of one relation"]))
                 # ages as the CODE has them (the tables bound per position)
-                rows_code = None
-                if fam["rows"] is not None:
-                    rows_code = []
-                    for sr, row in zip(fam["subrules"], fam["rows"]):
-                        rc = []
-                        for k, (aid, _a) in enumerate(row):
-                            rc.append((aid, code_age(sr["binds"].get(k, []))))
-                        rows_code.append(rc)
+                al_code = flat.align(fam, lambda sr, k: code_age(sr["binds"].get(k, []))) if fam["rows"] is not None else None
+                rows_code = al_code["rows"] if al_code is not None and al_code["collapsed"] == fam["collapsed"] else None
+                if fam["rows"] is not None and rows_code is None and not any(b for _, b in res["comment_code"]):
+                    res["comment_code"].append((fam["name"], ["ages of the code cannot be aligned like the ages of the comment"]))
                 res["families"].append({
                     "name": fam["name"], "kind": fam["kind"], "n": len(fam["atoms"]), "rows": fam["rows"], "rows_code": rows_code,
                     "atoms": ["%s(%s)" % (a[0], ", ".join(a[1])) for a in fam["atoms"]],
                     "subrules": [sr["name"] for sr in fam["subrules"]], "duplicates": fam["duplicates"],
+                    "collapsed": fam["collapsed"], "dropped": fam["dropped"],
                     "reordered": fam.get("reordered", 0), "file": comp["file"]})
     except flat.ParseError as ex:
         res["parse_error"] = str(ex)
@@ -93,8 +107,11 @@ def run(ctx):
                    "harness/build-driver (real eqlog::process, component mode, fake rustc) and translate/genprog.py"]
     ctx.assumptions = ["a [new]/[old] table holds exactly the new/old tuples and `iter_restrictions`/`get`/`is_empty` enumerate a table "
                        "faithfully (C08, C01-C03)",
-                       "labellings range over premise atoms; identical atoms inside one premise are numbered so that the family is "
-                       "exact if such a numbering exists (they match the same tuple, so only consistent labellings are realisable)",
+                       "labellings range over premise atoms; k identical atoms inside one premise get k ids, numbered inside each "
+                       "sub-rule in the age order all < new < old (this recovers the positions of to_semi_naive); if the family is not exact "
+                       "under that numbering the copies are collapsed: they match the same tuple, the requirement on it is the conjunction of "
+                       "their ages, a sub-rule with a [new] and an [old] copy enumerates nothing and is dropped - the family is then checked "
+                       "over the distinct atoms, which is what the property quantifies over",
                        "a rule with an empty premise has one match without tuples, run in every iteration (semi_naive.rs:92 TODO): "
                        "required to be exactly one atom-less sub-rule, counted, neither theorem nor violation",
                        "the implicit functionality rule is exact only up to the symmetry of its two atoms (check_family_sym)"]
@@ -145,7 +162,7 @@ def run(ctx):
 
     fams = []          # (program result, family)
     sizes, patterns, kinds, natoms = {}, {}, {}, {}
-    reordered = dups = subrules = 0
+    reordered = dups = subrules = collapsed = dropped = 0
     for r in results:
         if r["rc"] != 0:
             continue
@@ -160,6 +177,9 @@ def run(ctx):
         ctx.obligation("uniform:%s" % r["name"], not r["uniform"] and not r["calls"],
                        "%d families: same atom multiset, variables, conclusions in all sub-rules; indices 0..k-1; each called once"
                        % len(r["families"]) if not (r["uniform"] or r["calls"]) else str((r["uniform"] + r["calls"])[:2])[:300])
+        ctx.obligation("module-embeds:%s" % r["name"], not r["module_embed"],
+                       "module-mode .eql.rs contains every rule module of the component build verbatim and no other rule function"
+                       if not r["module_embed"] else str(r["module_embed"])[:300])
         for f in r["families"]:
             fams.append((r, f))
             kinds[f["kind"]] = kinds.get(f["kind"], 0) + 1
@@ -167,6 +187,8 @@ def run(ctx):
             natoms[f["n"]] = natoms.get(f["n"], 0) + 1
             reordered += f["reordered"]
             dups += 1 if f["duplicates"] else 0
+            collapsed += 1 if f["collapsed"] else 0
+            dropped += len(f["dropped"])
             for row in f["rows"] or []:
                 p = "".join(AGE_LETTER[a] for _, a in row)
                 patterns[p] = patterns.get(p, 0) + 1
@@ -178,6 +200,8 @@ def run(ctx):
                            "histogram_premise_atoms": {str(k): v for k, v in sorted(natoms.items())},
                            "age_patterns_in_binding_order_top40": dict(top[:40]), "distinct_age_patterns": len(patterns),
                            "sub_rules_with_reordered_premise": reordered, "families_with_identical_atoms": dups,
+                           "families_with_identical_atoms_decided_after_collapsing_copies": collapsed,
+                           "unsatisfiable_sub_rules_dropped(new and old copy of one atom)": dropped,
                            "rules_with_empty_premise": kinds.get("empty", 0)}
     for r, f in fams[:400:97]:
         ctx.sample({"program": r["name"], "family": f["name"], "atoms": f["atoms"], "rows(atom id, age 0=new 1=old 2=all)": str(f["rows"])})
@@ -209,26 +233,33 @@ def run(ctx):
     per_prog = {}
     for r, f in todo:
         sym = f["kind"] == "functionality"
-        py = flat.failing_labelling(f["rows"], f["n"], sym) if f["n"] <= 14 and all(
-            sorted(i for i, _ in row) == list(range(f["n"])) for row in f["rows"]) else None
+        py = flat.failing_labelling(f["rows"], f["n"], sym)
         v = verdict.get((r["name"], f["name"])) if verdict is not None else None
         per_prog.setdefault(r["name"], []).append(v)
-        code_differs = f["rows_code"] != f["rows"]
+        code_differs = f["rows_code"] is not None and f["rows_code"] != f["rows"]
         if v is True and py is None and not code_differs:
             continue
         if v is True and py is not None:
             ctx.broken.append("python enumeration and check_family disagree on %s/%s" % (r["name"], f["name"]))
             continue
         # search: the labelling that is enumerated 0 or >=2 times (code ages when the comment and the code differ)
-        rows = f["rows_code"] if code_differs and all(a is not None for row in f["rows_code"] for _, a in row) else f["rows"]
-        wit = flat.failing_labelling(rows, f["n"], sym) if f["n"] <= 14 else None
+        cands = []
+        if code_differs:
+            cands.append(("code", f["rows_code"]))
+        cands.append(("comment", f["rows"]))
+        wit, rows, src = None, f["rows"], "comment"
+        for nm, rw in cands:
+            w = flat.failing_labelling(rw, f["n"], sym)
+            if w is not None:
+                wit, rows, src = w, rw, nm
+                break
         if wit is not None and nviol < 5:
             nviol += 1
             lab, cnt, want = wit
             ctx.violation({"kind": "program", "program": r["name"], "program_text": r["text"], "family": f["name"],
                            "component_file": f["file"], "atoms": f["atoms"], "sub_rules": f["subrules"],
-                           "rows": [[list(p) for p in row] for row in rows], "ages_from": "code" if rows is f["rows_code"] else "comment",
-                           "labelling_new": lab, "enumerated_by": cnt, "expected": want},
+                           "rows": [[list(p) for p in row] for row in rows], "ages_from": src,
+                           "identical_atoms_collapsed": f["collapsed"], "labelling_new": lab, "enumerated_by": cnt, "expected": want},
                           "family %s of %s: the match whose tuples are labelled new=%s (atoms %s) is enumerated by %d sub-rules, expected %s"
                           % (f["name"], r["name"], lab, f["atoms"], cnt, want))
         elif wit is None and (v is False or code_differs):
@@ -239,8 +270,10 @@ def run(ctx):
                        "%d families: check_family / check_family_sym = true" % len(vs))
     # a comment/code mismatch or a non-uniform family with a concrete program is a violation carrying the program
     for r in results:
-        if r["rc"] == 0 and not r["parse_error"] and (r["comment_code"] or r["uniform"] or r["calls"]) and nviol < 5 and not ctx.violations:
+        if r["rc"] == 0 and not r["parse_error"] and (r["comment_code"] or r["uniform"] or r["calls"] or r["module_embed"]) \
+                and nviol < 5 and not ctx.violations:
             nviol += 1
             ctx.violation({"kind": "program", "program": r["name"], "program_text": r["text"],
-                           "comment_code": r["comment_code"][:5], "uniform": r["uniform"][:5], "calls": r["calls"][:5]},
-                          "emitted rule modules of %s: %s" % (r["name"], str((r["comment_code"] + r["uniform"] + r["calls"])[:2])[:300]))
+                           "comment_code": r["comment_code"][:5], "uniform": r["uniform"][:5], "calls": r["calls"][:5],
+                           "module_embed": r["module_embed"]},
+                          "emitted rule modules of %s: %s" % (r["name"], str((r["comment_code"] + r["uniform"] + r["calls"] + r["module_embed"])[:2])[:300]))
